@@ -263,6 +263,33 @@ def pow_sup(a, k):
 
 
 MAXSUP = 8
+STR_PURE = {"strip", "lstrip", "rstrip", "lower", "upper", "casefold", "title", "capitalize", "replace", "startswith", "endswith",
+            "removeprefix", "removesuffix", "isdigit", "isalpha", "zfill"}
+MAY = "?alt"       # formal symbol carried by the monomials that entered a support through a control-flow join (either-or, not a sum)
+
+
+def mark_may(sup):
+    out = set()
+    for m in sup:
+        d = dict(m)
+        d.setdefault(MAY, Fr(1))
+        out.add(tuple(sorted(d.items())))
+    return out
+
+
+def is_may(v):
+    """the value's support is not exact: some monomial is an alternative from a join, or the text of a Top / message names one"""
+    if isinstance(v, Deg):
+        return any(s == MAY for m in v.sup for s, _ in m)
+    if isinstance(v, Top):
+        return MAY in str(v.why)
+    if isinstance(v, str):
+        return MAY in v
+    return False
+
+
+def too_large(s):
+    return Top("support too large" + (f" (with alternatives {MAY})" if any(x == MAY for m in s for x, _ in m) else ""))
 
 
 def num(v):
@@ -353,8 +380,8 @@ def join(a, b):
                     all(getattr(x, "sup", None) == getattr(y, "sup", 0) for x, y in zip(a.dims, b.dims)):
                 return Arr(a.sup, a.dims, a.tag if a.tag == b.tag else None)
             return Deg(a.sup, a.rank if a.rank == b.rank else None, a.tag if a.tag == b.tag else None)
-        s = a.sup | b.sup
-        return Deg(s, a.rank if a.rank == b.rank else None) if len(s) <= MAXSUP else Top("support too large")
+        s = a.sup | frozenset(mark_may(b.sup - a.sup))      # either a or b: the part only b brings is an alternative, not a summand
+        return Deg(s, a.rank if a.rank == b.rank else None) if len(s) <= MAXSUP else too_large(s)
     if isinstance(a, Tup) and isinstance(b, Tup) and len(a.items) == len(b.items):
         return Tup([join(x, y) for x, y in zip(a.items, b.items)])
     if isinstance(a, ShapeV) and isinstance(b, ShapeV):
@@ -405,7 +432,7 @@ def add(a, b, node=None):
         if len(s) > 1 and node is not None and a.single() and b.single():
             CTX.event("mix", node, f"sum of different degrees {a.fmt()} and {b.fmt()}")
         r = _rank(a, b)
-        return Deg(s, r) if len(s) <= MAXSUP else Top("support too large")
+        return Deg(s, r) if len(s) <= MAXSUP else too_large(s)
     return Unk(f"add({a},{b})")
 
 
@@ -419,7 +446,7 @@ def mul(a, b):
         return AnyR(r) if r is not None else ANY
     if isinstance(a, Deg) and isinstance(b, Deg):
         s = mul_sup(a.sup, b.sup)
-        return Deg(s, _rank(a, b)) if len(s) <= MAXSUP else Top("support too large")
+        return Deg(s, _rank(a, b)) if len(s) <= MAXSUP else too_large(s)
     return Unk(f"mul({a},{b})")
 
 
@@ -461,7 +488,7 @@ def power(a, k, node=None):
             s = {()}
             for _ in range(int(kk)):
                 s = mul_sup(s, a.sup)
-            return Deg(s, a.rank) if len(s) <= MAXSUP else Top("support too large")
+            return Deg(s, a.rank) if len(s) <= MAXSUP else too_large(s)
         if not a.single():
             if node is not None:
                 CTX.event("nonhom", node, f"fractional/negative power of a non-homogeneous quantity {a.fmt()}")
@@ -1022,6 +1049,14 @@ def t_fft(args, kw, node):
     return num(args[0])
 
 
+def t_fftfreq(args, kw, node):
+    """rfftfreq(n, d): lines k / (n d): the unit of 1/d (cycles per sample when d is left out)"""
+    d = kw.get("d", args[1] if len(args) > 1 else None)
+    if d is None:
+        return Deg({()}, 1)
+    return withrank(inv(d, "frequency grid spacing", node), 1)
+
+
 def t_tuple(args, kw, node):
     a = args[0]
     return Tup(a.items) if isinstance(a, (Lst, Tup)) and not (isinstance(a, Lst) and a.tail is not None) else a
@@ -1111,12 +1146,14 @@ NP = {
     "nan_to_num": t_same, "cov": t_cov, "logical_and": t_logical, "logical_or": t_logical, "logical_not": t_logical,
     "delete": t_same, "sort": t_same, "clip": t_clip, "divide": t_divide, "multiply": lambda a, k, n: mul(a[0], a[1]),
     "add": lambda a, k, n: add(a[0], a[1], n), "subtract": lambda a, k, n: add(a[0], a[1], n), "negative": t_same,
-    "power": lambda a, k, n: power(a[0], a[1], n), "square": lambda a, k, n: power(a[0], Cst(2), n),
+    "power": lambda a, k, n: power(a[0], a[1], n), "float_power": lambda a, k, n: power(a[0], a[1], n), "square": lambda a, k, n: power(a[0], Cst(2), n),
     "cumsum": t_same, "flip": t_same, "roll": t_same, "copy": t_same, "trace": t_reduce, "atleast_2d": lambda a, k, n: withrank(_a(a), 2),
     "linalg.svd": t_svd, "linalg.inv": t_inv, "linalg.pinv": t_inv, "linalg.qr": t_qr, "linalg.solve": t_solve,
     "linalg.eig": t_eig, "linalg.eigvals": t_eigvals, "linalg.eigh": t_eig, "linalg.norm": t_reduce, "linalg.lstsq": lambda a, k, n: Tup([t_solve(a, k, n), Unk("lstsq-res"), ONE, Unk("sv")]),
     "linalg.det": lambda a, k, n: Unk("det"),
     "fft.ifft": t_fft, "fft.irfft": t_fft, "fft.rfft": t_fft, "fft.fft": t_fft, "seterr": t_const,
+    "fft.rfftfreq": lambda a, k, n: t_fftfreq(a, k, n), "fft.fftfreq": lambda a, k, n: t_fftfreq(a, k, n),
+    "hanning": lambda a, k, n: Deg({()}, 1), "hamming": lambda a, k, n: Deg({()}, 1), "blackman": lambda a, k, n: Deg({()}, 1), "bartlett": lambda a, k, n: Deg({()}, 1),
     "newaxis": None,
     "hypot": lambda a, k, n: add(a[0], a[1], n),
     # element selections keep the degree of the array they select from; einsum / tensordot are multilinear
@@ -1131,6 +1168,10 @@ EXTF = {
     "scipy.linalg.eig": t_eig, "scipy.linalg.inv": t_inv, "scipy.linalg.pinv": t_inv, "scipy.linalg.svd": t_svd, "scipy.linalg.qr": t_qr,
     "scipy.linalg.solve": t_solve,
     "scipy.signal.csd": t_csd, "scipy.signal.windows.exponential": lambda a, k, n: Deg({()}, 1),
+    "scipy.signal.get_window": lambda a, k, n: Deg({()}, 1), "scipy.signal.windows.hann": lambda a, k, n: Deg({()}, 1),
+    "scipy.signal.windows.get_window": lambda a, k, n: Deg({()}, 1), "scipy.signal.windows.boxcar": lambda a, k, n: Deg({()}, 1),
+    "scipy.fft.rfft": t_fft, "scipy.fft.irfft": t_fft, "scipy.fft.fft": t_fft, "scipy.fft.ifft": t_fft,
+    "scipy.fft.rfftfreq": lambda a, k, n: t_fftfreq(a, k, n), "scipy.fft.fftfreq": lambda a, k, n: t_fftfreq(a, k, n),
     "scipy.optimize.curve_fit": t_curve_fit, "scipy.signal.decimate": t_same, "scipy.signal.detrend": t_same,
     "scipy.signal.butter": t_const, "scipy.signal.sosfiltfilt": t_sosfiltfilt,
     "tqdm.tqdm": lambda a, k, n: a[0], "tqdm.trange": t_range, "itertools.zip_longest": t_zip_longest,
@@ -1140,7 +1181,7 @@ EXTF = {
 BUILTINS = {
     "round": t_round, "len": t_len, "int": t_int, "float": t_float, "complex": t_float, "abs": t_abs, "range": t_range, "zip": t_zip,
     "enumerate": t_enumerate, "list": t_list, "max": t_minmax, "min": t_minmax, "set": t_set, "sorted": t_list,
-    "str": lambda a, k, n: BOOL, "repr": lambda a, k, n: BOOL, "isinstance": t_isinstance, "round": t_int,
+    "str": lambda a, k, n: (Cst(str(a[0].v)) if len(a) == 1 and isinstance(a[0], Cst) and isinstance(a[0].v, (str, int)) and not isinstance(a[0].v, bool) else BOOL), "repr": lambda a, k, n: BOOL, "isinstance": t_isinstance, "round": t_int,
     "print": t_const, "sum": t_reduce, "tuple": t_tuple, "dict": t_dict, "type": lambda a, k, n: BOOL,
     "all": lambda a, k, n: BOOL, "any": lambda a, k, n: BOOL, "bool": lambda a, k, n: BOOL, "hasattr": lambda a, k, n: BOOL,
     "reversed": t_list,
@@ -2278,6 +2319,12 @@ def call(e, fr):
                 return Dct(d.d)
             return Unk(f"dict method {name}")
         if kind == "strmethod":
+            # methods of a known string with known arguments are computed (labels normalised before a comparison)
+            if f[2] in STR_PURE and all(isinstance(a_, Cst) and isinstance(a_.v, (str, int, tuple, type(None))) for a_ in args) and not kw:
+                try:
+                    return Cst(getattr(f[1].v, f[2])(*[a_.v for a_ in args]))
+                except Exception:
+                    return BOOL
             return BOOL
     if isinstance(f, Ext):
         return call_ext(f.name, args, kw, e, fr)
